@@ -451,18 +451,23 @@ class TraceFinder(MetaPathFinder):
 
 def patch_meta_path_non_context(tracers: List["BaseTracer"]) -> Callable:
     orig_meta_path_entry = None
+    finder = TraceFinder(tracers)
 
     def cleanup_callback():
+        # other finders may have been put in front in the meantime: take out this one, wherever it is now
+        if finder not in sys.meta_path:
+            return
+        idx = sys.meta_path.index(finder)
         if orig_meta_path_entry is None:
-            del sys.meta_path[0]
+            del sys.meta_path[idx]
         else:
-            sys.meta_path[0] = orig_meta_path_entry
+            sys.meta_path[idx] = orig_meta_path_entry
 
     if len(sys.meta_path) > 0 and isinstance(sys.meta_path[0], TraceFinder):
         orig_meta_path_entry = sys.meta_path[0]
-        sys.meta_path[0] = TraceFinder(tracers)
+        sys.meta_path[0] = finder
     else:
-        sys.meta_path.insert(0, TraceFinder(tracers))
+        sys.meta_path.insert(0, finder)
     return cleanup_callback
 
 
